@@ -375,6 +375,11 @@ def finish(prop, tier, seed, meta, insts, reports, t0, args):
             # model exploits an uninterpreted transcendental and nothing reproduces: undecided, not a violation
             undecided.append((inst.key, {'obligation': v['obligation'], 'reason': 'counter-model not reproducible (transcendental)'}))
             continue
+        if v.get('no_input') and v.get('engine_origin'):
+            # an exception raised inside one of the engine's own NumPy handlers that no native run reproduces: the engine does not
+            # model this call faithfully (engine gap), the code under contract is not shown to fail
+            undecided.append((inst.key, {'obligation': v['obligation'], 'reason': 'exception inside an engine handler, not reproduced natively: %s' % (v.get('exception') or '')[:120]}))
+            continue
         print('  failed obligation %s :: %s%s' % (inst.key, v['obligation'], (' :: ' + v['exception']) if v.get('exception') else ''))
         print('VIOLATION property=%s replay=%s%s' % (prop, rp, tail))
         exit_code = 1
